@@ -18,7 +18,12 @@ Gates (only what C06 determines):
   `embed_threshold: float`), graphs positional / by keyword, on the class / on an instance: same gates against the
   model's answer for the canonical configuration; a failure confined to the call form is classed `call-form`;
 * default cap (stream `threshold-boundary`): match counts 4992..5040 around DEFAULT_THRESHOLD with the threshold left
-  at its default: everything up to 5000 matches, [] beyond.
+  at its default: everything up to 5000 matches, [] beyond;
+* look-alike labels (streams `collision-pairs`, `colliding-labels`): the selected attributes of corresponding pattern / host
+  atoms and bonds carry values that are DIFFERENT under Python `==` (and as Lean `Val`) but alike under a cheap summary
+  (hash, len, str, first element, rounding, letter case, truthiness), next to values that are EQUAL but written differently
+  (1 / 1.0 / numpy scalars) and attributes nobody selected: same gates (the property demands equality of the selected
+  attributes, nothing weaker and nothing else).
 """
 import json
 
@@ -491,6 +496,199 @@ def gen_threshold_boundary(ctx, count):
     return cases
 
 
+# ---------------------------------------------------------------- look-alike labels
+# Families of attribute values that are pairwise DIFFERENT under Python `==` (and are encoded to different Lean `Val`s) but
+# coincide under some cheap summary an implementation might compare instead of the values themselves:
+#   hash()        hash(-1) == hash(-2); hash('') == hash(0) == hash(()) is false but hash('') == 0 == hash(0);
+#                 hash(2**61 - 1) == hash(0), hash(2**61) == hash(1) (CPython reduces ints modulo 2**61 - 1); tuples inherit it
+#   len() / [0]   equally long strings / tuples, common first element or first letter ('C' / 'Cl' / 'Co')
+#   str() / repr  '1' next to 1, 'None' next to None, '-1' next to -1
+#   round / int   0 / 0.5 / 1, 1.5 / 2 / 2.5
+#   truthiness    0, '', (), None / attribute missing  (`d.get(k) or default`)
+#   case / strip  'C' / 'c', 'Cl' / 'CL', 'C' / 'C '
+#   sorted / set  (1, 2) / (2, 1), ('C',) / ('C', 'C')
+# bool is never mixed with numbers (True == 1 in Python, kept apart in the model).
+GENERIC_FAMILIES = [
+    [-1, -2], [-1, -2, 0], [-1, -2, 1, 2], ["", 0], ["", 0, None], [0, None], [(), None], [(), ""], [(), 0],
+    ["1", 1], ["-1", -1, -2], ["None", None], ["0", 0, ""], [(-1,), (-2,)], [(0, -1), (0, -2)], [(1, 2), (2, 1)],
+    [(1, 2), (1, 3)], [(1,), (1, 1)], [("C", "H"), ("H", "C")], [0, 0.5, 1], [1.5, 2, 2.5], [-1, -1.5, -2],
+    [2 ** 61 - 1, 0], [2 ** 61, 1], [-(2 ** 61), -1, -2], ["a", "b"], ["ab", "ba"], ["a", "A"], ["a", "a "], [10, 1],
+    [12, 21], [255, 256, 257], [1, -1],
+]
+ELEMENT_FAMILIES = [["C", "Cl"], ["C", "Co", "Cs"], ["N", "Na", "Ne"], ["H", "Hg", "He"], ["C", "c"], ["Cl", "CL"],
+                    ["C", "C "], ["O", "Os"], ["N", "n", "Ni"], ["C", "N"], ["", "C"]]
+ORDER_FAMILIES = [[1, 1.5], [1.5, 2, 2.5], ["-", "="], ["SINGLE", "DOUBLE"], ["single", "SINGLE"], [1, "1"], [1, 2, None],
+                  [(1, 2), (2, 1)], [(1, 2), (1, 1)], [(1.5, 1), (1, 1.5), (1.5, 1.5)], [0, None], [1, 2, 3]]
+NODE_EXTRA_KEYS = ["charge", "charge", "atom_map", "isotope", "label", "neighbors", "typesGH"]
+EDGE_EXTRA_KEYS = ["standard_order", "standard_order", "label", "weight", "id", "name"]
+UNSELECTED_NODE = ["label", "id", "name", "weight", "aromatic"]
+UNSELECTED_EDGE = ["weight", "label", "id", "name", "capacity", "conjugated"]
+
+
+def written(rnd, x, seq=tuple, p=0.35, np_ok=True):
+    """The value x, possibly written differently: int / float / numpy scalar (all EQUAL under `==`, one `Val.num`);
+    sequences as `seq` throughout one case (tuple and list are NOT equal in Python, so they are never mixed).
+    `np_ok=False` where the attribute also takes sequence values somewhere: `numpy scalar == sequence` broadcasts
+    (it is an array, not a truth value), which is numpy's business and not a label comparison C06 speaks about."""
+    if isinstance(x, (tuple, list)):
+        return seq(written(rnd, y, seq, p, False) for y in x)
+    if isinstance(x, bool) or not isinstance(x, (int, float)) or abs(x) > 1000:
+        return x
+    if rnd.random() >= p:
+        return x
+    import numpy as np
+    if float(x) == int(x):
+        return rnd.choice([int(x), float(x)] + ([np.int64(int(x)), np.float64(x), np.int32(int(x))] if np_ok else []))
+    return rnd.choice([float(x)] + ([np.float64(x)] if np_ok else []))
+
+
+def plain(x):
+    """numpy scalars back to Python numbers (recursively; the sequence type is kept)."""
+    if isinstance(x, (tuple, list)):
+        return type(x)(plain(y) for y in x)
+    return x.item() if hasattr(x, "item") and not isinstance(x, (int, float, str)) else x
+
+
+def has_seq(fam):
+    return any(isinstance(x, (tuple, list)) for x in fam)
+
+
+def put(rnd, d, key, x, seq=tuple, np_ok=True):
+    """d[key] = x; None is written as an explicit None or by leaving the attribute out (`d.get(key)` is None either way)."""
+    if x is None and rnd.random() < 0.5:
+        d.pop(key, None)
+    else:
+        d[key] = written(rnd, x, seq, np_ok=np_ok)
+
+
+def collision_pairs():
+    """Deterministic: every ordered pair (a, b) of every family once on atoms and once on bonds.  Atoms: host a-b bonded,
+    pattern one atom a (exactly one map).  Bonds: host path with bond values a, b; pattern one bond a (two maps)."""
+    out = []
+    fams = [("label", f) for f in GENERIC_FAMILIES] + [("charge", f) for f in GENERIC_FAMILIES[:3]] + \
+           [("element", f) for f in ELEMENT_FAMILIES]
+    for key, fam in fams:
+        for ia, a in enumerate(fam):
+            for ib, b in enumerate(fam):
+                if ia == ib:
+                    continue
+                h, p = nx.Graph(), nx.Graph()
+                for i, x in enumerate((a, b, b)):
+                    d = {"element": "C", "charge": 0, "hcount": 1}
+                    d[key] = x
+                    h.add_node(i, **d)
+                h.add_edge(0, 1, order=1.0)
+                h.add_edge(1, 2, order=1.0)
+                d = {"element": "C", "charge": 0, "hcount": 0}
+                d[key] = a
+                p.add_node(10, **d)
+                nk = ["element", "charge"] + ([key] if key == "label" else [])
+                out.append((h, p, nk, ["order"], base_cfgs(), "pair/atom:" + key))
+    for key, fam in [("label", f) for f in GENERIC_FAMILIES] + [("standard_order", f) for f in GENERIC_FAMILIES[:3]] + \
+                    [("order", f) for f in ORDER_FAMILIES]:
+        for ia, a in enumerate(fam):
+            for ib, b in enumerate(fam):
+                if ia == ib:
+                    continue
+                h, p = nx.Graph(), nx.Graph()
+                for i in range(3):
+                    h.add_node(i, element="C", charge=0, hcount=1)
+                for i in (10, 11):
+                    p.add_node(i, element="C", charge=0)
+                for (u, v), x in (((0, 1), a), ((1, 2), b)):
+                    d = {"order": 1.0}
+                    d[key] = x
+                    h.add_edge(u, v, **d)
+                d = {"order": 1.0}
+                d[key] = a
+                p.add_edge(10, 11, **d)
+                ek = ["order"] + ([key] if key != "order" else [])
+                out.append((h, p, ["element"], ek, base_cfgs(), "pair/bond:" + key))
+    return out
+
+
+def gen_colliding_labels(ctx, count):
+    """Random hosts (1-3 components, 3-8 atoms, few elements) on which 1-3 selected attributes (of atoms and/or bonds)
+    take their values, atom by atom / bond by bond, from one look-alike family; patterns planted in them, half of them
+    with one value flipped to a sibling of the family afterwards (often leaving no match, so that `bt` falls back).
+    Numbers are written as int / float / numpy scalars at random, sequences as tuples or (whole case) as lists,
+    unselected attributes (`weight`, `label`, `id`, ...) differ freely; a third of the pairs are searched a second time
+    with the look-alike attribute NOT selected (then it must not matter)."""
+    rnd = ctx.rnd
+    out = []
+    while len(out) < count:
+        seq = list if rnd.random() < 0.25 else tuple
+        sizes = [rnd.randint(1, 4) for _ in range(rnd.choice([1, 1, 2, 2, 3]))]
+        while sum(sizes) > 8:
+            sizes[sizes.index(max(sizes))] -= 1
+        if sum(sizes) < 3:
+            sizes[0] += 2
+        host = matchgen.multi_component(rnd, sizes, elems=rnd.choice([["C"], ["C", "C", "N"], ["C", "N", "O"]]),
+                                        charge_p=0.0, hcount_absent_p=0.3)
+        placed = []
+        kinds = rnd.sample(["node", "node", "edge", "element", "order"], rnd.choice([1, 1, 2, 2, 3]))
+        for kind in kinds:
+            if kind == "node":
+                key, fam = rnd.choice(NODE_EXTRA_KEYS), rnd.choice(GENERIC_FAMILIES)
+            elif kind == "edge":
+                key, fam = rnd.choice(EDGE_EXTRA_KEYS), rnd.choice(GENERIC_FAMILIES)
+            elif kind == "element":
+                key, fam = "element", rnd.choice(ELEMENT_FAMILIES)
+            else:
+                key, fam = "order", rnd.choice(ORDER_FAMILIES)
+            on_nodes = kind in ("node", "element")
+            if (not on_nodes and host.number_of_edges() == 0) or any(o == on_nodes and k == key for o, k, _ in placed):
+                continue
+            placed.append((on_nodes, key, fam))
+            for d in ([d for _, d in host.nodes(data=True)] if on_nodes else [d for _, _, d in host.edges(data=True)]):
+                put(rnd, d, key, rnd.choice(fam), seq, not has_seq(fam))
+        if not placed:
+            continue
+        npc = rnd.choice([1, 1, 2])
+        pat, _ = matchgen.pattern_from(rnd, host, rnd.randint(npc, 4), npc, lower_h_p=0.6)
+        shape = "lookalike/planted"
+        if rnd.random() < 0.5:
+            on_nodes, key, fam = rnd.choice(placed)
+            ds = [d for _, d in pat.nodes(data=True)] if on_nodes else [d for _, _, d in pat.edges(data=True)]
+            if ds:
+                d = rnd.choice(ds)
+                others = [x for x in fam if graphio.val(x) != graphio.val(d.get(key))]
+                put(rnd, d, key, rnd.choice(others), seq, not has_seq(fam))
+                shape = "lookalike/flipped"
+        # the pattern's own way of writing numbers (the planted copy took over the host's)
+        no_np = {(on, k) for on, k, fam in placed if has_seq(fam)}
+        for on, ds in ((True, [d for _, d in pat.nodes(data=True)]), (False, [d for _, _, d in pat.edges(data=True)])):
+            for d in ds:
+                for k in list(d):
+                    if k != "hcount" and rnd.random() < 0.3:
+                        d[k] = written(rnd, plain(d[k]), seq, p=0.8, np_ok=(on, k) not in no_np)
+        # attributes nobody selects
+        sel_n = {k for on, k, _ in placed if on}
+        sel_e = {k for on, k, _ in placed if not on}
+        for g in (host, pat):
+            for k in rnd.sample(UNSELECTED_NODE, rnd.randint(0, 2)):
+                if k not in sel_n:
+                    for _, d in g.nodes(data=True):
+                        if rnd.random() < 0.7:
+                            d[k] = rnd.choice([0, 1, 2.5, "x", "", True, None, (1, 2) if seq is tuple else [1, 2]])
+            for k in rnd.sample(UNSELECTED_EDGE, rnd.randint(0, 2)):
+                if k not in sel_e:
+                    for _, _, d in g.edges(data=True):
+                        if rnd.random() < 0.7:
+                            d[k] = rnd.choice([0, 1, 0.5, 3, "x", "", False, None])
+        nk = [k for k in ("element", "charge") if k in sel_n or rnd.random() < 0.75] + sorted(sel_n - {"element", "charge"})
+        ek = [k for k in ("order",) if k in sel_e or rnd.random() < 0.75] + sorted(sel_e - {"order"})
+        rnd.shuffle(nk)
+        rnd.shuffle(ek)
+        out.append((host, pat, nk, ek, shape))
+        if rnd.random() < 0.33:
+            on_nodes, key, _ = rnd.choice(placed)
+            nk2 = [k for k in nk if not (on_nodes and k == key)]
+            ek2 = [k for k in ek if on_nodes or k != key]
+            out.append((host, pat, nk2, ek2, "lookalike/unselected"))
+    return out[:count]
+
+
 def with_cfgs(ctx, pairs, limited=3, forms=0):
     """Two passes: the base (unlimited) configurations, plus limited ones drawn knowing the match count."""
     cases = []
@@ -526,7 +724,10 @@ def run(ctx):
         "Driver/SubgraphSearch.lean JSON codec, harness/graphio.py encoding (numbers in half-units), sorting of mapping sets",
     ]
     ctx.assumptions = [
-        "graphs are simple undirected NetworkX graphs with non-negative integer node ids; attribute values are str/int/float multiples of 1/2",
+        "graphs are simple undirected NetworkX graphs with non-negative integer node ids; attribute values are None / str / int / float multiples "
+        "of 1/2 (also as numpy scalars) / tuples or lists of these; equality of selected attributes is Python `==` on such values, "
+        "encoded injectively up to `==` into Lean `Val` (bool never mixed with numbers, tuple never with list, numpy scalars never "
+        "next to sequence values of the same attribute: `numpy scalar == sequence` is an array, not a truth value)",
         "'exactly those' for the component-aware strategy is read for strict_cc_count=False; the default True is the documented guard "
         "(host with more components than the pattern => []), modelled as such (DESIGN 5a)",
         "pre_filter=True is a documented blow-up guard (candidate product > threshold*1e4 => []), modelled as coded",
@@ -551,7 +752,19 @@ def run(ctx):
                     "call. threshold-boundary (4 quick / 12 thorough): group-product hosts of 28-60 atoms (isolated atoms / disjoint "
                     "bonds, one element per group) with exactly 4992, 4998, 5000, 5005, 5016 or 5040 monomorphisms (always one at 5000, "
                     "one above, one below), 3 of {all, comp, bt, bt-strict} each, threshold at default (40% of them with the defaulted "
-                    "arguments left out), explicit 5000, or max_results in {4999,5000,5001}.")
+                    "arguments left out), explicit 5000, or max_results in {4999,5000,5001}. "
+                    "collision-pairs (deterministic, both tiers): every ordered pair (a, b) of every look-alike family (values different "
+                    "under == but alike under hash / len / str / first element / rounding / truthiness / letter case / sorting: -1,-2; '',0,None; "
+                    "'1',1; (1,2),(2,1); 0,.5,1; 2**61-1,0; 'C','Cl','Co'; 'C','c'; orders 1.5,2,2.5; '-','='; ...) once on atoms (host a-b-b, "
+                    "pattern atom a; key label / charge / element) and once on bonds (host path with bond values a, b, pattern bond a; key "
+                    "label / standard_order / order), 5 unlimited configurations each. colliding-labels (300 quick / 3000 thorough): hosts of "
+                    "1-3 components and 3-8 atoms over <=3 elements; 1-3 selected attributes (atoms: charge, atom_map, isotope, label, "
+                    "neighbors, typesGH, element; bonds: standard_order, label, weight, id, name, order) take values atom by atom / bond by "
+                    "bond from one family; planted patterns (1-2 components, hcount lowered), 50% with one value flipped to a sibling; numbers "
+                    "written as int / float / numpy scalars at random (never numpy next to sequence values), sequences as tuples or, 25% of "
+                    "cases, lists throughout; None as explicit None or attribute missing; 0-2 unselected attributes on atoms and bonds with "
+                    "arbitrary values; selected keys permuted, element / charge / order selected with p=.75; a third searched again with the "
+                    "look-alike attribute not selected; 5 unlimited + 1 limited configuration each.")
     ctx.nontrivial_rule = "(host, pattern, keys) distinct as JSON, host has >=2 nodes and at least one monomorphism exists"
     build_and_audit(ctx, ["SynKitProofs.Props.C06"], "SynKitProofs/Audit/C06.lean", THEOREMS)
 
@@ -581,6 +794,10 @@ def run(ctx):
         evaluate(ctx, with_cfgs(ctx, gen_random(ctx, nrand)), "random")
     if not ctx.violations:
         evaluate(ctx, with_cfgs(ctx, gen_selection_history(ctx, 60 if ctx.quick else 600), limited=1), "selection-history")
+    if not ctx.violations:
+        evaluate(ctx, collision_pairs(), "collision-pairs")
+    if not ctx.violations:
+        evaluate(ctx, with_cfgs(ctx, gen_colliding_labels(ctx, 300 if ctx.quick else 3000), limited=1), "colliding-labels")
     if not ctx.violations:
         evaluate(ctx, with_cfgs(ctx, gen_call_forms(ctx, 150 if ctx.quick else 2000), forms=3), "call-forms")
     if not ctx.violations:
